@@ -326,6 +326,10 @@ def main(pid, run):
     try:
         build_harness(ctx)
         run(ctx)
+        if getattr(ctx, "deferred_infra", None) and not ctx.violations:
+            # part of the exploration did not run (e.g. a scenario chain halted); what did run was judged first - with no
+            # violation found there, the unexplored rest makes this run inconclusive rather than a pass
+            raise Infra("; ".join(ctx.deferred_infra[:3]))
         write_evidence(ctx)
         rc = 1 if ctx.violations else 0
     except Infra as e:
